@@ -4,6 +4,7 @@ package main
 // evaluated on what the real code did; one correspondence case per application pair.
 
 import (
+	"bytes"
 	"encoding/json"
 	"fmt"
 	"reflect"
@@ -14,6 +15,7 @@ import (
 	"github.com/nyaruka/goflow/contactql"
 	"github.com/nyaruka/goflow/envs"
 	"github.com/nyaruka/goflow/flows"
+	"github.com/nyaruka/goflow/flows/events"
 	"github.com/nyaruka/goflow/flows/modifiers"
 
 	"verifharness/pkg/hx"
@@ -41,7 +43,9 @@ func toMap(v any) map[string]any {
 		panic(err)
 	}
 	m := map[string]any{}
-	if err := json.Unmarshal(b, &m); err != nil {
+	dec := json.NewDecoder(bytes.NewReader(b))
+	dec.UseNumber() // numbers of any size (a field value can be 10^640)
+	if err := dec.Decode(&m); err != nil {
 		panic(err)
 	}
 	return m
@@ -204,6 +208,43 @@ func (u *universe) affinityDiffers(c *flows.Contact) string {
 		if i < len(back.URNs()) && channelIndex(cu.Channel()) != channelIndex(back.URNs()[i].Channel()) {
 			return fmt.Sprintf("URN %s: channel pointer %d in memory, %d after reading the marshalled contact back", cu.URN(), channelIndex(cu.Channel()), channelIndex(back.URNs()[i].Channel()))
 		}
+	}
+	return ""
+}
+
+// "replaying the emitted events ... reproduces exactly the contact afterwards": a host can only replay through goflow's
+// readers, so the contact afterwards and every emitted event must be accepted by them (if the contact before was)
+func (u *universe) unreadable(c *flows.Contact, evs []flows.Event) string {
+	b, err := json.Marshal(c)
+	if err != nil {
+		return "contact does not marshal: " + err.Error()
+	}
+	if _, err := flows.ReadContact(u.sa, b, noMissing); err != nil {
+		return "flows.ReadContact rejects the marshalled contact: " + err.Error()
+	}
+	for _, e := range evs {
+		eb, err := json.Marshal(e)
+		if err != nil {
+			return "event does not marshal: " + err.Error()
+		}
+		if _, err := events.ReadEvent(eb); err != nil {
+			return fmt.Sprintf("events.ReadEvent rejects the emitted %s event: %s", e.Type(), err.Error())
+		}
+	}
+	return ""
+}
+
+// "applying the same modifier twice changes and reports nothing the second time", for the contact a host has persisted
+// (from the events / the marshalled contact) and loads again for the second application
+func (u *universe) secondApplicationOnReread(c *flows.Contact, m flows.Modifier) string {
+	b, _ := json.Marshal(c)
+	back, err := flows.ReadContact(u.sa, b, noMissing)
+	if err != nil {
+		return ""
+	}
+	a := u.applyOnce(back, m)
+	if a.modified || hasChangeEvent(a.eventsJS) || !sameContact(a.pre, a.post) {
+		return fmt.Sprintf("on the contact read back from its marshalled form the same modifier gives modified=%v change-event=%v changed=%v", a.modified, hasChangeEvent(a.eventsJS), !sameContact(a.pre, a.post))
 	}
 	return ""
 }
@@ -410,7 +451,18 @@ func runDirect(res *hx.Result, in *directInput, wantCoq bool) (*directOutcome, e
 	wasActive := contact.Status() == flows.ContactStatusActive
 
 	affinityBefore := u.affinityDiffers(contact)
+	unreadableBefore := u.unreadable(contact, nil)
 	a1 := u.applyOnce(contact, mod)
+	if res.Property == "C03" && unreadableBefore == "" {
+		res.OracleChecks += 2
+		if d := u.unreadable(contact, a1.events); d != "" {
+			res.Fail(in.Modifier.class()+":announced-change-rejected-by-readers", in, fmt.Sprintf("after modifiers.Apply (modified=%v, %d events): %s", a1.modified, len(a1.eventsJS), d))
+		} else if in.Clock == "" {
+			if d := u.secondApplicationOnReread(contact, mod); d != "" {
+				res.Fail(in.Modifier.class()+":second-application-on-reread-contact-reports", in, d)
+			}
+		}
+	}
 	if res.Property == "C03" && affinityBefore == "" {
 		res.OracleChecks++
 		if d := u.affinityDiffers(contact); d != "" {
